@@ -9,6 +9,7 @@ package main
 // the prelude of the generated file.
 
 import (
+	"verif/harness/internal/srcsel"
 	"fmt"
 	"go/ast"
 	"go/parser"
@@ -378,10 +379,7 @@ func (s *srcImporter) Import(path string) (*types.Package, error) {
 // loadPkg3 parses and type-checks one package of the repository against the stubs
 func loadPkg3(dir, importPath string, imp types.Importer) (*pkgInfo, error) {
 	p := &pkgInfo{dir: dir, fset: token.NewFileSet(), src: map[string][]byte{}}
-	filter := func(fi os.FileInfo) bool {
-		n := fi.Name()
-		return !strings.HasSuffix(n, "_test.go") && n != "genalphabet.go" && n != "verif_export.go"
-	}
+	filter := srcsel.Filter(dir)
 	parsed, err := parser.ParseDir(p.fset, dir, filter, parser.SkipObjectResolution)
 	if err != nil {
 		return nil, err
